@@ -283,14 +283,20 @@ func mapKeyString(k interface{}) string {
 }
 
 func (cl *Loader) loadDir(dir string) (map[string]interface{}, error) {
-	pattern := filepath.Join(dir, "*.yaml")
-	q, err := filepath.Glob(pattern)
+	// the directory's own path is taken literally: only the names of its entries are matched against *.yaml
+	// (a pattern made of the whole path would read "[", "*" or "?" in the name of the directory as wildcards)
+	entries, err := ioutil.ReadDir(dir)
 	if err != nil {
 		return nil, fmt.Errorf("%s: %v", dir, err)
 	}
 
 	cm := make(map[string]interface{})
-	for _, importFile := range q {
+	for _, entry := range entries {
+		if ok, _ := filepath.Match("*.yaml", entry.Name()); !ok {
+			continue
+		}
+
+		importFile := filepath.Join(dir, entry.Name())
 		if cl.imports[importFile] {
 			continue
 		}
